@@ -163,6 +163,7 @@ Proof.
       apply new_arr_spec in B. destruct B as [B1 _].
       match goal with |- excl (put _ _ ?t2) => eapply (excl_of_upd w _ r t t2); eauto end.
       cbn [trajs put]. now rewrite (ext_trajs _ _ (ext_trans _ _ _ S1 (ext_trans _ _ _ A1 B1))).
+    + (* reading the cell *) destruct (nth_error (trajs w) r); inversion H; subst; exact He.
 Qed.
 
 Lemma init_excl sps : excl (init_world sps).
